@@ -20,7 +20,8 @@ def describe(tier):
                 "(evaluate_ahb_expression_tree of 'Muss <e>', of the two-part 'Muss [v] Soll <e>' and of 'Muss <e> Kann [v]' with a fresh "
                 "requirement key v). Oracle: InvalidExpressionError is raised under every assignment iff the structural criterion R4 says "
                 "invalid, and under none otherwise; is_valid_expression('Muss <e>', setter) returns (True, None) resp. (False, non-empty "
-                "reason) accordingly (the setter writes a ContextVar read by the harness evaluators), also for the two-part forms. "
+                "reason) accordingly; in the quick tier additionally all ASTs with 4 leaves and distinct keys through the transformer entry "
+                "point and the validity check only (the setter writes a ContextVar read by the harness evaluators), also for the two-part forms. "
                 "Non-trivial = expressions with >= 1 O/X operator.",
         "bounds": {"sizes": BOUNDS[tier]},
         "exhaustive": True,
@@ -30,6 +31,10 @@ def describe(tier):
 
 def plan(tier, seed):
     items = []
+    if tier == "quick":
+        # one size beyond the full bound, distinct keys: transformer entry point under all RC assignments + the validity check
+        for p in range(128):
+            items.append({"n": 4, "lab": "distinct", "part": p, "parts": 128, "seed": seed, "light": True})
     for n, lab in BOUNDS[tier]:
         parts = {1: 1, 2: 4, 3: 64, 4: 1024}[n]
         for p in range(parts):
@@ -48,7 +53,7 @@ def _setter(cer):
                     hints=dict(cer.hints)))
 
 
-def check_expr(expr, seed):
+def check_expr(expr, seed, light=False):
     I = X.init()
     out = []
     pr = X.parse(expr)
@@ -80,6 +85,8 @@ def check_expr(expr, seed):
     v = [k for k in pools["rc"] if k not in rckeys][0]
     forms = [("single", f"Muss {expr}", rckeys), ("second-part", f"Muss [{v}] Soll {expr}", rckeys + [v]),
              ("first-part", f"Muss {expr} Kann [{v}]", rckeys + [v])]
+    if light:
+        forms = forms[:1]
     for fname, ahb, keys in forms:
         rt = I.try_call(lambda: I.run(I.parse_expression_including_unresolved_subexpressions(ahb), I.Env()))
         if rt[0] == "exc":
@@ -87,7 +94,7 @@ def check_expr(expr, seed):
             continue
         tree = rt[1]
         bad = False
-        for a in X.assignments(keys):
+        for a in ([] if light else X.assignments(keys)):
             for fv in itertools.product((True, False), repeat=len(fckeys)):
                 n += 1
                 env = X.env_for(tt, a, fc={k: (b, None if b else "m") for k, b in zip(fckeys, fv)})
@@ -131,7 +138,7 @@ def run_item(item):
         if i % item["parts"] != item["part"]:
             continue
         expr = X.render(ast, item["seed"])
-        vs, n = check_expr(expr, item["seed"])
+        vs, n = check_expr(expr, item["seed"], light=item.get("light", False))
         r.evaluations += n
         r.states += n
         r.transitions += n
